@@ -10,7 +10,7 @@ From CGV Require Import Base.PyBase Base.PyVal Gen.FragGen Dialect.DialectImpl F
      Frag.StripFacts Frag.FragProofs Frag.FragTextX Frag.FragProofsX Frag.FragStages Frag.FragSmall Frag.RingProofs
      Gen.SmilesGen Frag.SmilesParse Frag.SmilesSpec Frag.SmilesProofs Frag.SmilesIndex Frag.SmilesRelabel Frag.SmilesPerm
      Frag.Template Frag.TemplateProofs Frag.TemplateFinal Frag.TemplateGraph Frag.TemplateCompose Frag.SmilesReverse Frag.SmilesPermR
-     Frag.SmilesReroot.
+     Frag.SmilesReroot Frag.SmilesRewrite.
 From CGV Require Import Base.NxGraph Compose.CutModel Compose.CutSpecDefs.
 Local Open Scope nat_scope.
 Import ListNotations.
@@ -451,6 +451,35 @@ Example C01_start_atom_reroot_nonvacuous :
   | None => False
   end /\ reroot_n 4 rr_w = None.
 Proof. exact reroot_example. Qed.
+(** any start atom: sequences [rws] of elementary rewritings [rw1] of the token list, each at any place
+    where its side conditions hold: the re-rooting step; the exchange of two adjacent branches on one atom
+    (without ring-bond markers, or with ring bonds closed inside); the tail of the text written as a last
+    branch `x0 T` -> `x0 (T)` and back (T never closes more than it opens).  A neighbour inside a branch is
+    reached by: tail as branch, exchanges that bring the branch to the end, branch as tail, re-rooting (the
+    Example).  Every sequence relates the two graphs by the composed permutation.  Partial: that every
+    writing of a ring-free fragment is reachable from every other one is NOT proved (no formal notion of
+    "all writings of a tree" here); ring bonds across exchanged branches are not covered *)
+Theorem C01_start_atom_rewrite_partial : forall w w' s, rws w w' s ->
+  graphs_rel s (graph_of false w) (graph_of false w').
+Proof. exact rws_sound. Qed.
+Theorem C01_start_atom_rewrite_text_partial : forall w w' s, wf_smiles w = true -> wf_smiles w' = true -> rws w w' s ->
+  graphs_rel s (smiles_parse (render_smiles false w)) (smiles_parse (render_smiles false w')).
+Proof. exact rws_sound_text. Qed.
+Theorem C01_tail_as_branch : forall x0 T g c, grun false ginit x0 = Ok g -> q_cur g = Some c -> nonnegb 0 T = true ->
+  graph_of false (x0 ++ TOpen :: T ++ [TClose]) = graph_of false (x0 ++ T).
+Proof. exact tail_paren. Qed.
+(** every permutation below n ([sigma_ok]) has an inverse below n *)
+Theorem C01_sigma_inverse : forall s n, sigma_ok s n -> sigma_inv s (inv_of s n) n.
+Proof. exact sigma_ok_inv. Qed.
+Example C01_start_atom_rewrite_nonvacuous :
+  to_string (render_smiles false rw_w0) = "C(C)(F)(C=O)N"%string /\
+  to_string (render_smiles false rw_w5) = "F(C(C)(C=O)(N))"%string /\
+  wf_smiles rw_w0 = true /\ wf_smiles rw_w5 = true /\
+  (exists s, rws rw_w0 rw_w5 s /\ map s [0; 1; 2; 3; 4; 5] = [1; 2; 0; 3; 4; 5]) /\
+  (exists G H, graph_of false rw_w0 = Ok G /\ graph_of false rw_w5 = Ok H /\
+     g_edges G = [(0, 1, VInt 1); (0, 2, VInt 1); (0, 3, VInt 1); (3, 4, VInt 2); (0, 5, VInt 1)] /\
+     g_edges H = [(0, 1, VInt 1); (1, 2, VInt 1); (1, 3, VInt 1); (3, 4, VInt 2); (1, 5, VInt 1)]).
+Proof. exact rewrite_example. Qed.
 (** the documented bond orders are the ones of the installed pysmiles *)
 Theorem C13_smiles_orders : forall b, smiles_bond_to_order_lookup [bchar b] = Ok (border b).
 Proof. exact smiles_order_bchar. Qed.
@@ -482,3 +511,5 @@ Print Assumptions C01_branch_order_rings_partial.
 Print Assumptions C01_start_atom_reroot_partial.
 Print Assumptions C01_start_atom_reroot_text_partial.
 Print Assumptions C01_start_atom_path_partial.
+Print Assumptions C01_start_atom_rewrite_partial.
+Print Assumptions C01_start_atom_rewrite_text_partial.
